@@ -169,18 +169,13 @@ Proof.
     unfold g. rewrite truncated_nu_inside by lra. reflexivity.
   - apply HF; assumption.
 Qed.
-Lemma closed_point_P x : P x x -> F x x = 0.
-Proof.
-  intros Px. assert (H := HF x x (Rle_refl x) Px).
-  rewrite <- (is_RInt_unique (fun t => t ^ n * nu t) x x (F x x) H).
-  apply is_RInt_unique. apply (@is_RInt_point R_NormedModule).
-Qed.
-
 (* TruncatedLevyMeasure.integrate*(a,b) is the integral of x^n * (truncated density) over [a,b], i.e. the integral of
-   x^n * nu over [a,b] /\ [l,r].  The closed form only needs to be valid on the CLIPPED interval (so l < 0 < r is allowed
-   for an infinite-activity mass as long as the clipped interval stays on one side of zero). *)
+   x^n * nu over [a,b] /\ [l,r].  The closed form only needs to be valid on the CLIPPED interval, and only when that interval
+   has positive length (so l < 0 < r is allowed for an infinite-activity mass as long as the clipped interval stays on one
+   side of zero; an empty intersection returns 0 without consulting the closed form). *)
 Lemma truncated_is_RInt a b : a <= b ->
-  P (fst (truncated_interval l r a b)) (snd (truncated_interval l r a b)) ->
+  (fst (truncated_interval l r a b) < snd (truncated_interval l r a b) ->
+   P (fst (truncated_interval l r a b)) (snd (truncated_interval l r a b))) ->
   is_RInt g a b (truncated_integrate F l r a b).
 Proof.
   intros Hab. unfold truncated_integrate.
@@ -188,26 +183,34 @@ Proof.
   rewrite truncated_interval_eq. cbn [fst snd].
   destruct (Rle_dec b l) as [Hbl | Hbl].
   { rewrite (Rmin_left a r), (Rmax_right a l), (Rmax_right b l), (Rmin_left l r) by lra.
-    intros Pll. rewrite (closed_point_P l Pll). apply trunc_zero_left; assumption. }
+    intros _. rewrite Reqb_same. apply trunc_zero_left; assumption. }
   apply Rnot_le_lt in Hbl.
   destruct (Rle_dec r a) as [Hra | Hra].
   { rewrite (Rmin_right a r), (Rmax_left r l), (Rmax_left b l), (Rmin_right b r) by lra.
-    intros Prr. rewrite (closed_point_P r Prr). apply trunc_zero_right; assumption. }
+    intros _. rewrite Reqb_same. apply trunc_zero_right; assumption. }
   apply Rnot_le_lt in Hra.
   rewrite (Rmin_left a r), (Rmax_left b l) by lra.
   destruct (Rle_dec a l) as [Hal | Hal]; destruct (Rle_dec b r) as [Hbr | Hbr].
-  - rewrite (Rmax_right a l), (Rmin_left b r) by lra. intros Pab.
+  - rewrite (Rmax_right a l), (Rmin_left b r) by lra. intros Pab. rewrite (Reqb_ne l b) by lra.
     replace (F l b) with (plus 0 (F l b)) by (unfold plus; simpl; ring).
-    apply (is_RInt_Chasles g a l b); [apply trunc_zero_left; lra | apply trunc_inside; try lra; assumption].
+    apply (is_RInt_Chasles g a l b); [apply trunc_zero_left; lra | apply trunc_inside; try lra; apply Pab; lra].
   - apply Rnot_le_lt in Hbr. rewrite (Rmax_right a l), (Rmin_right b r) by lra. intros Pab.
-    replace (F l r) with (plus (plus 0 (F l r)) 0) by (unfold plus; simpl; ring).
-    apply (is_RInt_Chasles g a r b); [|apply trunc_zero_right; lra].
-    apply (is_RInt_Chasles g a l r); [apply trunc_zero_left; lra | apply trunc_inside; try lra; assumption].
+    destruct (Req_dec l r) as [E | N].
+    + rewrite E. rewrite Reqb_same.
+      replace 0 with (plus 0 0) at 1 by (unfold plus; simpl; ring).
+      apply (is_RInt_Chasles g a l b); [apply trunc_zero_left; lra | apply trunc_zero_right; lra].
+    + rewrite (Reqb_ne l r) by assumption.
+      replace (F l r) with (plus (plus 0 (F l r)) 0) by (unfold plus; simpl; ring).
+      apply (is_RInt_Chasles g a r b); [|apply trunc_zero_right; lra].
+      apply (is_RInt_Chasles g a l r); [apply trunc_zero_left; lra | apply trunc_inside; try lra; apply Pab; lra].
   - apply Rnot_le_lt in Hal. rewrite (Rmax_left a l), (Rmin_left b r) by lra. intros Pab.
-    apply trunc_inside; try lra; assumption.
+    destruct (Req_dec a b) as [E | N].
+    + subst b. rewrite Reqb_same. apply (@is_RInt_point R_NormedModule).
+    + rewrite (Reqb_ne a b) by assumption. apply trunc_inside; try lra; apply Pab; lra.
   - apply Rnot_le_lt in Hal. apply Rnot_le_lt in Hbr. rewrite (Rmax_left a l), (Rmin_right b r) by lra. intros Pab.
+    rewrite (Reqb_ne a r) by lra.
     replace (F a r) with (plus (F a r) 0) by (unfold plus; simpl; ring).
-    apply (is_RInt_Chasles g a r b); [apply trunc_inside; try lra; assumption | apply trunc_zero_right; lra].
+    apply (is_RInt_Chasles g a r b); [apply trunc_inside; try lra; apply Pab; lra | apply trunc_zero_right; lra].
 Qed.
 End Truncated.
 
@@ -220,7 +223,7 @@ Proof.
   intros HF l r Hlr Dl Dr a b Hab Da Db.
   apply (truncated_is_RInt nu n F (fun x y => D x /\ D y)); try assumption.
   - intros x y Hxy [Dx Dy]. apply HF; assumption.
-  - rewrite truncated_interval_eq. cbn [fst snd]. split.
+  - intros _. rewrite truncated_interval_eq. cbn [fst snd]. split.
     + unfold Rmax, Rmin. destruct (Rle_dec a r); destruct (Rle_dec _ l); assumption.
     + unfold Rmax, Rmin. destruct (Rle_dec b l); destruct (Rle_dec _ r); assumption.
 Qed.
